@@ -193,6 +193,13 @@ class Gen:
                     label = g.Edge.Label(self.pick_enum(T),
                                          rng.random() < 0.5,
                                          rng.random() < 0.5)
-                ir.cfg.add(g.Edge(rng.choice(nodes), rng.choice(nodes),
-                                  label))
+                a, b = rng.choice(nodes), rng.choice(nodes)
+                ir.cfg.add(g.Edge(a, b, label))
+                if label is not None and rng.random() < 0.35:
+                    # a parallel edge differing only in one flag
+                    ir.cfg.add(g.Edge(a, b, g.Edge.Label(
+                        label.type, not label.conditional, label.direct)))
+                    if rng.random() < 0.5:
+                        ir.cfg.add(g.Edge(a, b, g.Edge.Label(
+                            label.type, label.conditional, not label.direct)))
         return ir
